@@ -12,7 +12,7 @@ from collections import defaultdict
 from vlib import env, gens, refcat
 
 HOSTILE = list("()[]{}<>&'\"/\\|,.;:-_*=#!?%$@^~`+")
-SPECIAL = ['x[conj]', 'a)(b', '->-', '-<-', '-a>b-', '<->', '()', '{}', '[]', '){', 'f(x)', ':-)', '1)a', 'km/', 'a/b/', '<b>', '-', '--', '&', '&amp;', '_(', '*']
+SPECIAL = ['ID=7', 'UUID=4f2a', '#1', 'a#b', 'x[conj]', 'a)(b', '->-', '-<-', '-a>b-', '<->', '()', '{}', '[]', '){', 'f(x)', ':-)', '1)a', 'km/', 'a/b/', '<b>', '-', '--', '&', '&amp;', '_(', '*']
 BRACKET_WORDS = ['(', ')', '[', ']', '{', '}', '-LRB-', '-RRB-', '-LCB-', '-RCB-', '-LSB-', '-RSB-']
 CJK = list('日本語の文章東京は晴れ猫犬')
 COMBINING = ['é', 'ñ', 'ä']
@@ -58,6 +58,8 @@ def token_ok(w, domain):
         return not any(c in w for c in '/{}\\') and w not in BRACKET_WORDS
     if domain == 'xml':
         return True
+    if domain == 'all-en':        # representable by every format of the English CLI list (braces and slashes are fine there)
+        return token_ok(w, 'ptb') and token_ok(w, 'auto')
     if domain == 'all':           # representable by every format at once
         return token_ok(w, 'ja') and token_ok(w, 'ptb') and token_ok(w, 'auto')
     raise ValueError(domain)
@@ -66,7 +68,7 @@ def token_ok(w, domain):
 def en_token(rng, domain='any', attr_domain=None):
     from depccg.types import Token
     a = attr_domain or domain
-    return Token(word=hostile_token(rng, domain), pos=rng.choice(('NN', 'VBZ', 'DT', 'IN', ',', '.', '-LRB-', 'PRP$', 'XX', '(', ')', '<sym>', '[', 'a>b')),
+    return Token(word=hostile_token(rng, domain), pos=rng.choice(('NN', 'VBZ', 'DT', 'IN', ',', '.', '-LRB-', 'PRP$', 'XX', '(', ')', '<sym>', '[', 'a>b', 'POS', 'ID=1')),
                  entity=rng.choice(('O', 'I-ORG', 'B-DATE', 'XX')), lemma=hostile_token(rng, a).lower(),
                  chunk=rng.choice(('XX', 'I-NP', 'B-VP')))
 
